@@ -3,9 +3,27 @@ doc/pygopherd.txt (sections LINKS, OVERRIDING DEFAULTS, HIDING AN ENTRY) and the
 Independent of pygopherd's implementation; used as the oracle for C08."""
 from __future__ import annotations
 
-import posixpath
 
 FIELDS = ("type", "name", "selector", "host", "port", "num")
+
+
+def normpath(path):
+    """POSIX path normalisation (pure Python so that it can run on symbolic strings)."""
+    if path == "":
+        return "."
+    lead = 0
+    if path.startswith("/"):
+        lead = 2 if (path.startswith("//") and not path.startswith("///")) else 1
+    out = []
+    for comp in path.split("/"):
+        if comp in ("", "."):
+            continue
+        if comp != ".." or (not lead and not out) or (out and out[-1] == ".."):
+            out.append(comp)
+        elif out:
+            out.pop()
+    res = "/" * lead + "/".join(out)
+    return res or "."
 
 
 class Link:
@@ -77,7 +95,7 @@ def parse_block(lines, base, cap_selector=None):
     if not have_path:
         return None
     if relative and l.host is None and l.port is None:
-        l.selector = posixpath.normpath(base + "/" + l.selector)
+        l.selector = normpath(base + "/" + l.selector)
     return l
 
 
